@@ -157,6 +157,9 @@ func (m *PublishMessage) Decode(src []byte) (int, error) {
 		return total, err
 	}
 
+	// Nothing behind the end of this packet belongs to it.
+	src = src[:total+int(m.remlen)]
+
 	n := 0
 
 	m.topic, n, err = readLPBytes(src[total:])
